@@ -5,8 +5,8 @@ import CelmaVerif.Lemmas.RulesLevel
   C03 — every command line that obeys the declared rules is accepted.
   `Obeys` judges the order-sensitive rules in the documented sense: an exclusion forbids *later* key
   occurrences of the excluded argument, a requirement is met by a *later* key occurrence.
-  Partial for the same reasons as C01 (forms not yet in `Spells`: a flag group closed by a
-  value-taking key, the `--` separator; destinations outside the modelled fragment).
+  Partial for the same reasons as C01 (the `--` separator is not in `Spells`; destinations outside
+  the modelled fragment).
 -/
 namespace CelmaVerif.Props.C03
 open CelmaVerif CelmaVerif.ProgArgs CelmaVerif.Keys
